@@ -34,6 +34,7 @@ type Env struct {
 	pkg       *types.Package
 	depth     int
 	absIdx    map[string]absInfo
+	pol       int // +1: the formula being translated is assumed (positive position); 0: unknown / goal
 }
 
 // absInfo: a quantified index variable rebound to an absolute position in a backing array, so that the
@@ -413,7 +414,9 @@ func (fe *FnEnc) tr(ex Expr, env *Env) SVal {
 	case EUn:
 		switch x.Op {
 		case "!":
-			return SVal{T: tNot(fe.tr(x.X, env).T), Typ: types.Typ[types.Bool]}
+			e2 := *env
+			e2.pol = -env.pol
+			return SVal{T: tNot(fe.tr(x.X, &e2).T), Typ: types.Typ[types.Bool]}
 		case "-":
 			v := fe.tr(x.X, env)
 			return SVal{T: Term{"(- " + v.T.S + ")", v.T.Sort}, Typ: v.Typ}
@@ -433,7 +436,9 @@ func (fe *FnEnc) tr(ex Expr, env *Env) SVal {
 	case EBin:
 		return fe.trBin(x, env)
 	case ECond:
-		c := fe.tr(x.C, env).T
+		ec := *env
+		ec.pol = 0
+		c := fe.tr(x.C, &ec).T
 		a := fe.mat(fe.tr(x.A, env), env)
 		b := fe.mat(fe.tr(x.B, env), env)
 		if a.IsNil {
@@ -631,10 +636,11 @@ func (fe *FnEnc) trQuant(x EQuant, env *Env) SVal {
 		fe.specFail("quantifier body is not boolean")
 	}
 	bs := body.T.S
+	fe.nfresh++
+	qid := fmt.Sprintf(" :qid |%s.%d|", sanitizeFile(fe.qctx), fe.nfresh)
 	if allAbs && len(pats) > 0 {
-		bs = "(! " + bs + " :pattern (" + strings.Join(pats, " ") + "))"
-	}
-	if len(x.Trigs) > 0 {
+		bs = "(! " + bs + " :pattern (" + strings.Join(pats, " ") + ")" + qid + ")"
+	} else if len(x.Trigs) > 0 {
 		bs = "(! " + bs
 		for _, tr := range x.Trigs {
 			var ts []string
@@ -643,7 +649,9 @@ func (fe *FnEnc) trQuant(x EQuant, env *Env) SVal {
 			}
 			bs += " :pattern (" + strings.Join(ts, " ") + ")"
 		}
-		bs += ")"
+		bs += qid + ")"
+	} else {
+		bs = "(! " + bs + qid + ")"
 	}
 	kw := "exists"
 	if x.Forall {
@@ -953,6 +961,36 @@ func (fe *FnEnc) trCall(x ECall, env *Env) SVal {
 		a := fe.tr(x.Args[0], env)
 		b := fe.tr(x.Args[1], env)
 		return SVal{T: tCmp("<", Term{app("strord", a.T), sReal}, Term{app("strord", b.T), sReal}), Typ: types.Typ[types.Bool]}
+	case "uniqueWhen":
+		// uniqueWhen(S, key, cond): forall j != k :: key(S[j]) == key(S[k]) ==> !cond(S[j])
+		// (an entry satisfying cond is the only one with its key).  As a goal: the pairwise form.  As an
+		// assumption outside any binder: the equivalent single-variable form with two fresh functions
+		// (P: keys owned by a cond-entry, p: the owner's index), which instantiates linearly.
+		if len(x.Args) != 3 {
+			fe.specFail("uniqueWhen needs 3 arguments")
+		}
+		kn, cn := exprName(x.Args[1]), exprName(x.Args[2])
+		S := x.Args[0]
+		elem := func(v string) Expr { return EIdx{S, EId{v}} }
+		inr := func(v string) Expr {
+			return EBin{"&&", EBin{"<=", EInt{"0"}, EId{v}}, EBin{"<", EId{v}, ECall{"len", []Expr{S}}}}
+		}
+		renameCounter++
+		if env.pol == 1 && len(env.bound) == 0 {
+			fe.nfresh++
+			P := fmt.Sprintf("$uwP.%d", fe.nfresh)
+			p := fmt.Sprintf("$uwp.%d", fe.nfresh)
+			qv := fmt.Sprintf("q_%d", renameCounter)
+			key := ECall{kn, []Expr{elem(qv)}}
+			body := EBin{"==>", inr(qv), EBin{"&&",
+				EBin{"==>", ECall{cn, []Expr{elem(qv)}}, ECall{P, []Expr{key}}},
+				EBin{"==>", ECall{P, []Expr{key}}, EBin{"==", ECall{p, []Expr{key}}, EId{qv}}}}}
+			return fe.tr(EQuant{true, []Binder{{qv, "int"}}, body, nil}, env)
+		}
+		jv, kv := fmt.Sprintf("j_%d", renameCounter), fmt.Sprintf("k_%d", renameCounter)
+		body := EBin{"==>", EBin{"&&", EBin{"&&", EBin{"&&", inr(jv), inr(kv)}, EBin{"!=", EId{jv}, EId{kv}}},
+			EBin{"==", ECall{kn, []Expr{elem(jv)}}, ECall{kn, []Expr{elem(kv)}}}}, EUn{"!", ECall{cn, []Expr{elem(jv)}}}}
+		return fe.tr(EQuant{true, []Binder{{jv, "int"}, {kv, "int"}}, body, nil}, env)
 	case "digestOK":
 		a := fe.tr(x.Args[0], env)
 		fe.declFun("digestOK", []string{sStr}, sBool)
@@ -1011,6 +1049,20 @@ func (fe *FnEnc) trCall(x ECall, env *Env) SVal {
 	case "typeid":
 		a := fe.tr(x.Args[0], env)
 		return SVal{T: ifTyp(a.T), Typ: types.Typ[types.Int]}
+	}
+	if strings.HasPrefix(x.Fn, "$uw") {
+		a := fe.mat(fe.tr(x.Args[0], env), env)
+		ret := sBool
+		if strings.HasPrefix(x.Fn, "$uwp") {
+			ret = sInt
+		}
+		n := q(x.Fn[1:])
+		fe.declFun(n, []string{a.T.Sort}, ret)
+		var rt types.Type = types.Typ[types.Bool]
+		if ret == sInt {
+			rt = types.Typ[types.Int]
+		}
+		return SVal{T: Term{app(n, a.T), ret}, Typ: rt}
 	}
 	if strings.HasPrefix(x.Fn, "re_") {
 		n := q("re." + x.Fn[3:])
@@ -1074,9 +1126,13 @@ func (fe *FnEnc) trBin(x EBin, env *Env) SVal {
 	case "||":
 		return SVal{T: tOr(fe.trB(x.L, env), fe.trB(x.R, env)), Typ: boolT}
 	case "==>":
-		return SVal{T: tImp(fe.trB(x.L, env), fe.trB(x.R, env)), Typ: boolT}
+		eL := *env
+		eL.pol = -env.pol
+		return SVal{T: tImp(fe.trB(x.L, &eL), fe.trB(x.R, env)), Typ: boolT}
 	case "<==>":
-		return SVal{T: tEq(fe.trB(x.L, env), fe.trB(x.R, env)), Typ: boolT}
+		e0 := *env
+		e0.pol = 0
+		return SVal{T: tEq(fe.trB(x.L, &e0), fe.trB(x.R, &e0)), Typ: boolT}
 	}
 	l := fe.mat(fe.tr(x.L, env), env)
 	r := fe.mat(fe.tr(x.R, env), env)
